@@ -100,7 +100,7 @@ func runGrammar(r *ev.Run, sets []boundSet, body func(c *xplore.Ctx) (string, st
 	var skipped int64
 	var names []string
 	for _, bs := range sets {
-		ex := &xplore.Explorer{Bounds: bs.bounds, Workers: r.Workers, Body: func(c *xplore.Ctx) {
+		ex := &xplore.Explorer{Bounds: bs.bounds, Workers: r.Workers, Deadline: deadlineFor(r.Tier), Body: func(c *xplore.Ctx) {
 			text, form, fs, skip := body(c)
 			if skip {
 				fm.Lock()
